@@ -49,6 +49,9 @@ def variants(s, rng):
 def documents(ctx, big=False):
     k = 7 if (big or not ctx.quick()) else 6
     xs = list(gen.exhaustive(["a", " ", "\r", "\n", ">"], k))
+    # long last lines without a final line end (a normalisation that looks only at the end of the text)
+    for k in (1000, 2047, 2048, 2049, 4096, 5000):
+        xs += ["a\nb\n" + "x" * k, "# h\n\n- i\n- j\n\n" + "word " * (k // 5), "```\nc\n```\n" + "y" * k]
     for _ in range(20000 if (big or not ctx.quick()) else 2500):
         d = gen.md_any(ctx.rng)
         if ctx.rng.random() < 0.5:
@@ -95,6 +98,22 @@ def oracle(ctx, mds, docs, per_doc_cfgs=2):
         entry.append(("mistune.markdown(**%r)" % (kw,), lambda x, kw=kw: mistune.markdown(x, **kw)))
         entry.append(("mistune.markdown(**%r) again" % (kw,), lambda x, kw=kw: mistune.markdown(x, **kw)))
     # (Markdown.parse takes a str: None is handled by __call__ and markdown(), which is what "converted" means)
+    # the functional entry point on line-ending variants (token list: blank lines are visible there)
+    for base in ("\n# Title\n\ntext\n", "\n\npara\n", "a\nb\n\n- c\n", "x\n" + "long " * 600, "> q\n" + "w" * 2100, "```\ncode\n```\n" + "tail " * 500):
+        for kw in ({"renderer": "ast"}, {"renderer": None}, {}, {"escape": False}):
+            try:
+                ref = mistune.markdown(base, **kw)
+            except Exception:
+                continue
+            for kind, v in variants(base, ctx.rng):
+                n += 1
+                try:
+                    r = mistune.markdown(v, **kw)
+                except Exception as e:
+                    r = ("EXC", type(e).__name__)
+                if r != ref:
+                    ctx.fail("line-ending-%s:markdown()" % kind, "mistune.markdown(**%r): %r and its %s variant differ" % (kw, base[:60], kind), {"config": "markdown() %r" % (kw,), "s": base[:300], "variant": v[:300], "kind": kind})
+                    break
     for nm, f in entry:
         n += 1
         try:
